@@ -104,3 +104,17 @@ refactor("c07-while-as-loop-with-early-continue",
          [(E, "                match escape {\n                    Escape::None => {},\n                    Escape::Break{..} => break,\n                    Escape::Continue{..} => continue,\n                    Escape::Return{..} => return Ok(escape),\n                }\n            }\n        },\n\n        Stmt::For",
               "                if let Escape::Break{..} = escape {\n                    break;\n                }\n                if let Escape::Return{..} = escape {\n                    return Ok(escape);\n                }\n            }\n        },\n\n        Stmt::For")],
          note="same table written with if-lets")
+
+# ---- C05 ---------------------------------------------------------------------
+mutant("c05-list-plus-extends-left-operand",
+       [(E, "                    let a = lock_deref!(a).clone();\n                    let b = lock_deref!(b).clone();\n\n                    Ok(Value::List(Arc::new(Mutex::new([a, b].concat()))))",
+            "                    let b = lock_deref!(b).clone();\n                    lock_deref!(a).extend(b);\n\n                    Ok(Value::List(a.clone()))")],
+       [("C05", "R05.1"), ("C05", "R05.3")])
+mutant("c05-full-slice-returns-same-list",
+       [(E, "    let end = maybe_end.get_or_insert(lock_deref!(list).len());\n\n    if let Some(vs) = lock_deref!(list).get(*start .. *end) {",
+            "    let end = maybe_end.get_or_insert(lock_deref!(list).len());\n\n    if *start == 0 && *end == lock_deref!(list).len() {\n        return Ok(value::new_val_ref_with_no_source(Value::List(list.clone())));\n    }\n\n    if let Some(vs) = lock_deref!(list).get(*start .. *end) {")],
+       [("C05", "R05.3")], note="xs[:] aliases xs")
+mutant("c05-single-spread-literal-returns-operand",
+       [(E, "            let vals = eval_list_items(context, scopes, items)\n                .context(EvalListItemsFailed)?;\n\n            Ok(value::new_list(vals))",
+            "            if items.len() == 1 && items[0].is_spread {\n                let v = eval_expr(context, scopes, &items[0].expr)\n                    .context(EvalListItemFailed)?;\n                if let Value::List(_) = v.v {\n                    return Ok(value::new_val_ref_with_no_source(v.v));\n                }\n            }\n\n            let vals = eval_list_items(context, scopes, items)\n                .context(EvalListItemsFailed)?;\n\n            Ok(value::new_list(vals))")],
+       [("C05", "R05.4")], note="[ys..] returns ys itself")
